@@ -187,8 +187,8 @@ def runOp (st : DState) (op : String) (args : List String) : DState × String :=
       match sender E lp ek ak p with
       | .ok bs =>
         let fcnt : BitVec 32 := match p.payload with | some (.mac h _ _) => h.fCnt | _ => 0
-        let (lp', hi, bs') := tamperOf t lp (fcnt &&& 0xffff0000#32) bs
-        "ok " ++ hx bs' ++ " " ++ (match receiver E st.reg lp' ek ak hi bs' with
+        let (lp', hi, bs') := if otherDirOf t then (lp, fcnt &&& 0xffff0000#32, bs) else tamperOf t lp (fcnt &&& 0xffff0000#32) bs
+        "ok " ++ hx bs' ++ " " ++ (match receiverDir (otherDirOf t) E st.reg lp' ek ak hi bs' with
           | .decErr => "dec-ERR" | .notData => "notdata" | .valErr => "val-ERR" | .rejected => "rejected"
           | .acceptedFOptsErr => "accepted fopts-ERR" | .acceptedFrmErr => "accepted frm-ERR"
           | .accepted f => "accepted " ++ fmtFrame f)
